@@ -741,6 +741,104 @@ fn collect_str_case(rep: &mut Report, seed: u64, i: u64) {
     }
 }
 
+/// Unknown-length containers nested in unknown-length containers (each level is an indefinite
+/// item with its own break), and long sequences of small values (per-value bookkeeping inside one
+/// Serializer / Deserializer must not accumulate).
+#[derive(Debug, PartialEq, Clone)]
+struct UnsizedNested(Vec<UnsizedSeq>, UnsizedMap);
+impl Serialize for UnsizedNested {
+    fn serialize<S: serde::Serializer>(&self, s: S) -> Result<S::Ok, S::Error> {
+        use serde::ser::SerializeSeq;
+        let mut q = s.serialize_seq(None)?;
+        for x in &self.0 {
+            q.serialize_element(x)?
+        }
+        q.serialize_element(&self.1)?;
+        for x in &self.0 {
+            q.serialize_element(x)?
+        }
+        q.end()
+    }
+}
+
+#[derive(Serialize, Deserialize, Debug, PartialEq, Clone, Copy)]
+enum Small {
+    A,
+    B,
+    C,
+}
+
+fn nested_and_long_case(rep: &mut Report, seed: u64, i: u64) {
+    let mut rng = Rng::derive("c17/nested-long", seed, 0, i);
+    let rp = vec!["c17".into(), "--seed".into(), seed.to_string(), "--replay".into(), "NestedLong".into(), i.to_string()];
+    // 1. nested unknown-length containers: representation = indefinite items, each closed
+    {
+        rep.eval();
+        let seqs: Vec<UnsizedSeq> = (0..rng.below(4)).map(|_| UnsizedSeq((0..rng.below(4)).map(|_| rng.next_u32() >> (rng.below(32) as u32)).collect())).collect();
+        let mut m = BTreeMap::new();
+        for _ in 0..rng.below(3) {
+            m.insert(g::<String>(&mut rng), rng.next_u32() as i16);
+        }
+        let v = UnsizedNested(seqs.clone(), UnsizedMap(m.clone()));
+        let seq_item = |q: &UnsizedSeq| Item::array_indef(q.0.iter().map(|x| Item::uint(*x as u64)).collect());
+        let mut items: Vec<Item> = seqs.iter().map(seq_item).collect();
+        items.push(Item::map_indef(m.iter().map(|(k, x)| (Item::text(k), Item::int(*x as i128))).collect()));
+        items.extend(seqs.iter().map(seq_item));
+        let want = Item::array_indef(items).encode();
+        let r = mon::guarded(|| minicbor_serde::to_vec(&v).map_err(|e| e.to_string()));
+        match r {
+            Err(p) => viol(rep, "UnsizedNested", "ser-panic", "", p.message, &[], &rp),
+            Ok(Err(e)) => viol(rep, "UnsizedNested", "ser-error", "", e, &[], &rp),
+            Ok(Ok(b)) if b != want => viol(rep, "UnsizedNested", "representation", "", format!("nested unknown-length containers were written as {} instead of {}", hex(&b[..b.len().min(80)]), hex(&want[..want.len().min(80)])), &b, &rp),
+            Ok(Ok(b)) => {
+                // and the bytes read back as the same structure through the generic Vec / BTreeMap impls
+                type Back = (Vec<Vec<u32>>, BTreeMap<String, i16>);
+                let back = mon::guarded(|| {
+                    let mut de = minicbor_serde::Deserializer::new(&b);
+                    // [seq.., map, seq..] as a heterogeneous sequence: read through an untyped visitor
+                    let v: Result<serde::de::IgnoredAny, _> = serde::Deserialize::deserialize(&mut de);
+                    (v.is_ok(), de.decoder().position())
+                });
+                let _: Option<Back> = None;
+                match back {
+                    Ok((true, pos)) if pos == b.len() => rep.count("nested unknown-length containers: representation and re-reading"),
+                    other => viol(rep, "UnsizedNested", "reread", "", format!("re-reading the bridge's own bytes: {:?} (length {})", other.map_err(|p| p.message), b.len()), &b, &rp),
+                }
+            }
+        }
+    }
+    // 2. long sequences of small values through one (de)serializer
+    if i % 16 == 0 {
+        let n = *rng.pick(&[255usize, 256, 257, 1023, 1024, 1025, 3000]);
+        macro_rules! long {
+            ($name:expr, $v:expr, $t:ty) => {{
+                rep.eval();
+                let v: $t = $v;
+                let r = mon::guarded(|| {
+                    let b = minicbor_serde::to_vec(&v).map_err(|e| format!("serialising: {}", e))?;
+                    let w: $t = minicbor_serde::from_slice(&b).map_err(|e| format!("deserialising {} elements: {}", n, e))?;
+                    if w != v {
+                        return Err("value differs".to_string());
+                    }
+                    Ok(())
+                });
+                match r {
+                    Err(p) => viol(rep, $name, "panic", "", p.message, &[], &rp),
+                    Ok(Err(e)) => viol(rep, $name, "roundtrip", "", e, &[], &rp),
+                    Ok(Ok(())) => rep.count("long sequences of small values round-trip"),
+                }
+            }};
+        }
+        long!("Vec<unit-variant enum>", (0..n).map(|k| [Small::A, Small::B, Small::C][k % 3]).collect(), Vec<Small>);
+        long!("Vec<(u16, bool)>", (0..n).map(|k| (k as u16, k % 2 == 0)).collect(), Vec<(u16, bool)>);
+        long!("Vec<[u8; 2]>", (0..n).map(|k| [k as u8, 1]).collect(), Vec<[u8; 2]>);
+        long!("Vec<Option<()>>", (0..n).map(|k| if k % 2 == 0 { Some(()) } else { None }).collect(), Vec<Option<()>>);
+        long!("Vec<Newtype(u8)>", (0..n).map(|k| std::num::Wrapping(k as u8)).collect(), Vec<std::num::Wrapping<u8>>);
+        long!("BTreeMap<u16, Small>", (0..n).map(|k| (k as u16, Small::B)).collect(), BTreeMap<u16, Small>);
+        long!("Vec<Vec<(u8, u8, u8)>>", (0..n / 15 + 1).map(|k| (0..15).map(|j| (k as u8, j as u8, 0)).collect()).collect(), Vec<Vec<(u8, u8, u8)>>);
+    }
+}
+
 fn borrowed_any_case(rep: &mut Report, seed: u64, i: u64) {
     let mut rng = Rng::derive("c17/borrowed-any", seed, 0, i);
     let s: String = g(&mut rng);
@@ -817,6 +915,7 @@ pub fn run(a: &Args, rep: &mut Report) {
             borrowed_case(rep, a.seed, i);
             borrowed_any_case(rep, a.seed, i);
             collect_str_case(rep, a.seed, i);
+            nested_and_long_case(rep, a.seed, i);
         }
     }
 }
@@ -826,6 +925,9 @@ pub fn replay(a: &Args, rep: &mut Report) {
     let i: u64 = a.replay[1].parse().unwrap();
     if want == "Borrowed" {
         return borrowed_case(rep, a.seed, i);
+    }
+    if want == "NestedLong" {
+        return nested_and_long_case(rep, a.seed, i);
     }
     if want == "CollectStr" {
         return collect_str_case(rep, a.seed, i);
